@@ -105,7 +105,9 @@ theorem execOne_refines (pf : PatchFn) (op : Op) (st : St) (h : op.intTyped = fa
         simp [execOne, execDelete, Spec.effect, Spec.calls, resOf, apiDelete, hg, St.call,
           aerase_of_absent c k hg]
       | some o0 =>
-        simp [execOne, execDelete, Spec.effect, Spec.calls, resOf, apiDelete, hg, St.call]
+        cases p <;>
+          simp [execOne, execDelete, Spec.effect, Spec.calls, resOf, apiDelete, apiGet, hg, St.call,
+            aget_aerase_same]
   | patch kind k gvr sub im ihe body =>
     cases kind with
     | jq =>
